@@ -158,6 +158,13 @@ def analyse(text, parts, res):
         prim = [s for s in spans if s.get("is_primary")] or spans
         pline = prim[0]["line_start"] if prim else 0
         kd, nm = part_of(parts, pline)
+        # a violated trait-level / callee-level clause is attributed to the function whose body failed it
+        for sp in spans:
+            lab = sp.get("label") or ""
+            if "at the end of the function body" in lab or "at this exit" in lab:
+                k2, n2 = part_of(parts, sp["line_start"])
+                if k2 in ("unit", "canary"):
+                    kd, nm = k2, n2
         labels = []
         for s in spans:
             for ln in range(s["line_start"], s["line_end"] + 1):
